@@ -185,8 +185,8 @@ MUTANTS: Dict[str, List[M]] = {
         ("return value dropped for coroutines", "_cli.py", '        return __import__("asyncio").run(component(**cfg))', '        __import__("asyncio").run(component(**cfg))\n        return None', "C12."),
     ],
     "C13": [
-        ('remove dropped in args_and_kwargs', "_parameter_resolvers.py", '                params = remove_given_parameters(node, params, removed_params)\n', '', 'C13.a'),
-        ('remove only under super', "_parameter_resolvers.py", '                params = remove_given_parameters(node, params, removed_params)\n                if params:', '                if params:', 'C13.a'),
+        ('remove dropped in args_and_kwargs', "_parameter_resolvers.py", '                params = remove_given_parameters(node, params, removed_params, instance_given=instance_given)\n', '', 'C13.a'),
+        ('remove only under super', "_parameter_resolvers.py", '                params = remove_given_parameters(node, params, removed_params, instance_given=instance_given)\n                if params:', '                if params:', 'C13.a'),
         ('removed names filter dropped', "_parameter_resolvers.py", '        params = [p for p in params if p.name not in removed_params]\n', '', 'C13.a'),
         ('remove dropped in match_call', "_parameter_resolvers.py", '            params = remove_given_parameters(node, params)\n', '', 'C13.a'),
         ('positional filter dropped', "_parameter_resolvers.py", '    params = [p for n, p in enumerate(params) if n not in given_args]\n', '    params = list(params)\n', 'C13.b'),
@@ -222,6 +222,8 @@ MUTANTS: Dict[str, List[M]] = {
         ('NOT_ACCEPTED cmp', "_parameter_resolvers.py", '            if len(params) < non_get_pop_count:\n                defaults', '            if len(params) <= non_get_pop_count:\n                defaults', 'C13.i'),
         ('unconditional cmp', "_parameter_resolvers.py", 'if len(params) >= non_get_pop_count and', 'if len(params) > non_get_pop_count and', 'C13.i'),
         ('pop counted as branch', "_parameter_resolvers.py", '        if not (params[0].origin or "").startswith(param_kwargs_pop_or_get):  # type: ignore[union-attr]\n            non_get_pop_count += 1', '        non_get_pop_count += 1', 'C13.i'),
+        ("explicit instance of Class.m(self, ...) counted as a parameter again (F58)", "_parameter_resolvers.py", "        given_args = {n - 1 for n in given_args if n > 0}\n", "        pass\n", "C13.b"),
+        ("instance flag not passed on", "_parameter_resolvers.py", "params = remove_given_parameters(node, params, removed_params, instance_given=instance_given)", "params = remove_given_parameters(node, params, removed_params)", "C13.b"),
         ("default nodes ignore keyword-only parameters again (F56)", "_parameter_resolvers.py", "        arg_nodes = arg_nodes + node.kwonlyargs\n        default_nodes = default_nodes + node.kw_defaults\n", "", "C13.d"),
         ("positional-only names paired after the ordinary ones", "_parameter_resolvers.py", 'arg_nodes = getattr(node, "posonlyargs", []) + node.args', 'arg_nodes = node.args + getattr(node, "posonlyargs", [])', "C13.d"),
         ("defaults left-aligned", "_parameter_resolvers.py", "default_nodes = [None] * (len(arg_nodes) - len(node.defaults)) + node.defaults", "default_nodes = node.defaults + [None] * (len(arg_nodes) - len(node.defaults))", "C13.d"),
